@@ -429,13 +429,13 @@ impl StaticMetadata {
         for ni in named_instances.iter() {
             let instance_name = ni.name.as_str();
             if ni.location == default_instance_location
-                && names
-                    .iter()
-                    .find_map(|(key, string)| (*string == instance_name).then_some(key.name_id))
-                    .is_some_and(|name_id| {
-                        name_id == NameId::SUBFAMILY_NAME
-                            || name_id == NameId::TYPOGRAPHIC_SUBFAMILY_NAME
-                    })
+                // any record, not the first one in (hash) iteration order: another name record
+                // may carry the same string
+                && names.iter().any(|(key, string)| {
+                    *string == instance_name
+                        && (key.name_id == NameId::SUBFAMILY_NAME
+                            || key.name_id == NameId::TYPOGRAPHIC_SUBFAMILY_NAME)
+                })
             {
                 log::debug!(
                     "Reuse existing subfamily name '{instance_name}' for default instance at {default_instance_location:?}",
